@@ -130,7 +130,7 @@ static void run_input (MEMF *m, int route)
 int main (int argc, char **argv)
 {	int j, k, per ;
 	vh_init (argc, argv, "c03_hostile_input", "C03") ;
-	vh_case_secs = 20 ;
+	vh_case_secs = 20 ; vh_case_cpu_secs = 6 ;
 	vh_enum_formats () ;
 	{	uint64_t sv = vh_rs ; vh_srand (12345) ; build_corpus () ; vh_rs = sv ; }
 	per = vh_thorough ? 1500 : 100 ;
